@@ -445,6 +445,7 @@ func (s *c16Srv) deleteServer(h *c16Host) {
 		s.flush(h)
 		h.expect = nil
 		h.queries = nil
+		s.verdicts(1)
 	}
 }
 
@@ -556,6 +557,7 @@ func (s *c16Srv) deliver(h *c16Host) bool {
 	}
 	s.m.HandleROAEvent(t.ev)
 	s.stepDone("ok", "mfire %d %d", h.idx, t.ord)
+	s.verdicts(1)
 	return true
 }
 
@@ -588,6 +590,7 @@ func (s *c16Srv) disable(h *c16Host, viaReset bool) {
 		h.expect, h.why = map[string]c16Rec{}, "disable-no-purge"
 	}
 	s.stepDone(c16OK(err)+s.sentSince(h, sq0, rq0), "mdisable %d", h.idx)
+	s.verdicts(1)
 }
 
 func (s *c16Srv) softReset(h *c16Host) {
@@ -646,6 +649,7 @@ func (s *c16Srv) pduEndOfData(h *c16Host, sid uint16, sn uint32, expect map[stri
 	h.syncs++
 	h.expect, h.why = expect, why
 	s.pdu(h, c16Ser(rtr.NewRTREndOfData(sid, sn)), fmt.Sprintf("eod %d %d", sid, sn))
+	s.verdicts(2)
 }
 func (s *c16Srv) pduCacheReset(h *c16Host) {
 	s.pdu(h, c16Ser(rtr.NewRTRCacheReset()), "creset")
@@ -683,13 +687,22 @@ func (s *c16Srv) pduOther(h *c16Host, k int) {
 
 var c16Pool = func() []c16Rec {
 	var l []c16Rec
-	for _, p := range []string{"10.0.0.0/8", "10.1.0.0/16", "10.1.1.0/24", "192.168.0.0/24", "0.0.0.0/0", "10.1.1.128/25",
-		"2001:db8::/32", "2001:db8:1::/48", "::/0", "2001:db8::1/128", "255.255.255.255/32"} {
+	// same address with different lengths (10.0.0.0/8,/16,/24; 0.0.0.0/0,/8; 2001:db8::/32,/48; ::/0,/16)
+	// and max-lengths shared across them, so that records differing in exactly one component exist
+	for _, p := range []string{"10.0.0.0/8", "10.0.0.0/16", "10.0.0.0/24", "10.1.0.0/16", "10.1.1.0/24", "192.168.0.0/24",
+		"0.0.0.0/0", "0.0.0.0/8", "10.1.1.128/25", "2001:db8::/32", "2001:db8::/48", "2001:db8:1::/48", "::/0", "::/16",
+		"2001:db8::1/128", "255.255.255.255/32"} {
 		pf := netip.MustParsePrefix(p)
-		for _, ml := range []int{pf.Bits(), pf.Bits() + 4, pf.Addr().BitLen()} {
-			if ml > pf.Addr().BitLen() {
+		mls := []int{pf.Bits(), pf.Bits() + 4, pf.Addr().BitLen(), 24}
+		if pf.Addr().Is6() {
+			mls[3] = 48
+		}
+		seenML := map[int]bool{}
+		for _, ml := range mls {
+			if ml > pf.Addr().BitLen() || ml < pf.Bits() || seenML[ml] {
 				continue
 			}
+			seenML[ml] = true
 			for _, as := range []uint32{0, 100, 65000, 4294967295} {
 				l = append(l, c16Rec{pf, uint8(ml), as})
 			}
@@ -697,6 +710,121 @@ var c16Pool = func() []c16Rec {
 	}
 	return l
 }()
+
+var c16ASes = []uint32{0, 100, 65000, 4294967295}
+
+// nearDup: a record that differs from x in exactly one component of its identity — prefix
+// length (same address), max length, or AS.  (Family and source vary through the pool and
+// through several caches holding the same record.)
+func (s *c16Srv) nearDup(x c16Rec) c16Rec {
+	w := x.p.Addr().BitLen()
+	for try := 0; try < 8; try++ {
+		y := x
+		switch s.r.intn(3) {
+		case 0: // another length under which the address is still a valid prefix, within max length
+			var ls []int
+			for l := 0; l <= int(x.maxLen) && l <= w; l++ {
+				if l != x.p.Bits() && netip.PrefixFrom(x.p.Addr(), l).Masked().Addr() == x.p.Addr() {
+					ls = append(ls, l)
+				}
+			}
+			if len(ls) == 0 {
+				continue
+			}
+			near := ls[0] // prefer the neighbouring lengths the pool also uses
+			for _, l := range ls {
+				if l%8 == 0 && s.r.chance(60) {
+					near = l
+				}
+			}
+			if s.r.chance(30) {
+				near = ls[s.r.intn(len(ls))]
+			}
+			y.p = netip.PrefixFrom(x.p.Addr(), near)
+		case 1:
+			ml := s.r.pick(x.p.Bits(), x.p.Bits()+4, w, int(x.maxLen)+1, int(x.maxLen)-1)
+			if ml < x.p.Bits() || ml > w || ml == int(x.maxLen) {
+				continue
+			}
+			y.maxLen = uint8(ml)
+		default:
+			y.as = c16ASes[s.r.intn(len(c16ASes))]
+			if y.as == x.as {
+				continue
+			}
+		}
+		return y
+	}
+	return c16Pool[s.r.intn(len(c16Pool))]
+}
+
+// applySet: "announced and not withdrawn", in order
+func c16ApplySet(base map[string]c16Rec, ds []c16Delta) map[string]c16Rec {
+	want := c16Copy(base)
+	for _, d := range ds {
+		if d.announce {
+			want[d.rec.key()] = d.rec
+		} else {
+			delete(want, d.rec.key())
+		}
+	}
+	return want
+}
+
+// withNoise interleaves a response with PDUs about near-duplicates of its records: announced and
+// withdrawn again, withdrawn without ever having been announced, withdrawn and re-announced.
+// None of them may touch any other record.
+func (s *c16Srv) withNoise(ds []c16Delta, base map[string]c16Rec, sloppy bool) []c16Delta {
+	var pool []c16Rec
+	for _, d := range ds {
+		pool = append(pool, d.rec)
+	}
+	for _, k := range c16Keys(base) {
+		pool = append(pool, base[k])
+	}
+	if len(pool) == 0 {
+		pool = append(pool, c16Pool[s.r.intn(len(c16Pool))])
+	}
+	out := make([]c16Delta, 0, len(ds)+8)
+	var owed []c16Delta // withdrawals of near-duplicates announced earlier in this response
+	emit := func() {
+		x := s.nearDup(pool[s.r.intn(len(pool))])
+		switch s.r.intn(4) {
+		case 0, 1: // announce now, withdraw later in the same response
+			out = append(out, c16Delta{true, x})
+			owed = append(owed, c16Delta{false, x})
+			s.o.stat("noise_neardup_announce_then_withdraw", 1)
+		case 2: // withdrawal of a record never announced
+			out = append(out, c16Delta{false, x})
+			s.o.stat("noise_neardup_withdraw_unknown", 1)
+		default: // withdraw and re-announce
+			out = append(out, c16Delta{false, x}, c16Delta{true, x})
+			owed = append(owed, c16Delta{false, x})
+			s.o.stat("noise_neardup_withdraw_reannounce", 1)
+		}
+	}
+	for i := 0; i <= len(ds); i++ {
+		if s.r.chance(30) {
+			emit()
+		}
+		if len(owed) > 0 && s.r.chance(50) {
+			out = append(out, owed[0])
+			owed = owed[1:]
+		}
+		if i < len(ds) {
+			out = append(out, ds[i])
+			if sloppy && s.r.chance(15) && ds[i].announce {
+				out = append(out, ds[i]) // duplicate announcement
+				s.o.stat("sloppy_duplicate_announce", 1)
+			}
+			if sloppy && s.r.chance(10) {
+				out = append(out, c16Delta{false, c16Pool[s.r.intn(len(c16Pool))]})
+				s.o.stat("sloppy_withdraw_random", 1)
+			}
+		}
+	}
+	return append(out, owed...)
+}
 
 func (s *c16Srv) cacheRestart(h *c16Host) {
 	old := h.session
@@ -713,6 +841,10 @@ func (s *c16Srv) cacheMutate(h *c16Host) {
 	n := 1 + s.r.intn(3)
 	for i := 0; i < n; i++ {
 		rec := c16Pool[s.r.intn(len(c16Pool))]
+		if len(h.db) > 0 && s.r.chance(40) { // a near-duplicate of a record the cache holds
+			k := c16Keys(h.db)
+			rec = s.nearDup(h.db[k[s.r.intn(len(k))]])
+		}
 		if _, ok := h.db[rec.key()]; ok {
 			delete(h.db, rec.key())
 			ds = append(ds, c16Delta{false, rec})
@@ -756,6 +888,7 @@ func c16NetDeltas(ds []c16Delta) []c16Delta {
 // answer serves the oldest outstanding query of h the way a cache does. `cut` > 0 drops the
 // connection after that many PDUs of the response.
 func (s *c16Srv) answer(h *c16Host, concat bool, sloppy bool, cut int) {
+	noise := sloppy || s.r.chance(40)
 	q := h.queries[0]
 	h.queries = h.queries[1:]
 	sent := 0
@@ -776,17 +909,21 @@ func (s *c16Srv) answer(h *c16Host, concat bool, sloppy bool, cut int) {
 			return
 		}
 		keys := c16Keys(h.db)
+		var seq []c16Delta
 		for _, i := range s.r.perm(len(keys)) {
-			s.pduPrefix(h, true, h.db[keys[i]])
+			seq = append(seq, c16Delta{true, h.db[keys[i]]})
+		}
+		if noise {
+			seq = s.withNoise(seq, nil, sloppy)
+		}
+		for _, d := range seq {
+			s.pduPrefix(h, d.announce, d.rec)
 			if cutNow() {
 				return
 			}
-			if sloppy && s.r.chance(15) {
-				s.pduPrefix(h, true, h.db[keys[i]]) // duplicate announcement
-				s.o.stat("sloppy_duplicate_announce", 1)
-			}
 		}
-		s.pduEndOfData(h, h.session, h.serial, c16Copy(h.db), "reset-reply-not-replacing")
+		// a reset reply replaces: the set semantics of its PDUs, starting from nothing
+		s.pduEndOfData(h, h.session, h.serial, c16ApplySet(nil, seq), "reset-reply-not-the-announced-set")
 		return
 	}
 	var sid, sn uint32
@@ -821,6 +958,9 @@ func (s *c16Srv) answer(h *c16Host, concat bool, sloppy bool, cut int) {
 	if !concat {
 		ds = c16NetDeltas(ds)
 	}
+	if noise {
+		ds = s.withNoise(ds, before, sloppy)
+	}
 	annThenWd := false
 	seenAnn := map[string]bool{}
 	for _, d := range ds {
@@ -839,24 +979,12 @@ func (s *c16Srv) answer(h *c16Host, concat bool, sloppy bool, cut int) {
 		if cutNow() {
 			return
 		}
-		if sloppy && s.r.chance(10) {
-			s.pduPrefix(h, false, c16Pool[s.r.intn(len(c16Pool))]) // may withdraw an unknown record
-			s.o.stat("sloppy_withdraw_random", 1)
-			before = nil
-		}
 	}
 	var want map[string]c16Rec
 	why := "incremental-update-wrong"
 	if before != nil {
-		// the view before the response, with the deltas applied in order
-		want = c16Copy(before)
-		for _, d := range ds {
-			if d.announce {
-				want[d.rec.key()] = d.rec
-			} else {
-				delete(want, d.rec.key())
-			}
-		}
+		// the view before the response, with the PDUs applied in order
+		want = c16ApplySet(before, ds)
 		if annThenWd {
 			why = "announce-then-withdraw-in-one-response"
 			s.o.stat("response_with_announce_then_withdraw", 1)
@@ -913,7 +1041,129 @@ func (s *c16Srv) settle(h *c16Host) {
 func (s *c16Srv) populate(h *c16Host, n int) {
 	for i := 0; i < n; i++ {
 		rec := c16Pool[s.r.intn(len(c16Pool))]
+		if len(h.db) > 0 && s.r.chance(40) {
+			k := c16Keys(h.db)
+			rec = s.nearDup(h.db[k[s.r.intn(len(k))]])
+		}
 		h.db[rec.key()] = rec
+	}
+}
+
+func (s *c16Srv) unsolicitedRec(h *c16Host, ann bool, rec c16Rec) {
+	if h.expect != nil {
+		h.expect = c16ApplySet(h.expect, []c16Delta{{ann, rec}})
+		h.why = "prefix-pdu-after-end-of-data-wrong"
+	}
+	s.pduPrefix(h, ann, rec)
+	s.verdicts(1)
+}
+
+// unsolicited: a prefix PDU outside any response, after End of Data — applied at once
+func (s *c16Srv) unsolicited(h *c16Host) {
+	c := s.client(h)
+	if c == nil || !c.endOfData || len(h.queries) > 0 {
+		return
+	}
+	var rec c16Rec
+	if v := s.view(h); len(v) > 0 && s.r.chance(75) {
+		k := c16Keys(v)
+		rec = v[k[s.r.intn(len(k))]]
+		if s.r.chance(65) {
+			rec = s.nearDup(rec)
+		}
+	} else {
+		rec = c16Pool[s.r.intn(len(c16Pool))]
+	}
+	s.unsolicitedRec(h, s.r.chance(50), rec)
+	s.o.stat("step_prefix_after_end_of_data", 1)
+}
+
+// ---- verdicts follow the announced set -------------------------------------------------------------
+
+// verdicts validates routes derived from the announced records against the manager's table: the
+// answer is compared with the model, with RFC 6811 recomputed over the records the table lists,
+// and — when every configured cache has an expectation — over the announced-and-not-withdrawn sets.
+func (s *c16Srv) verdicts(n int) {
+	var all []c16Rec
+	known := true
+	for _, h := range s.hosts {
+		if s.client(h) == nil {
+			continue
+		}
+		if h.expect == nil {
+			known = false
+			continue
+		}
+		for _, k := range c16Keys(h.expect) {
+			all = append(all, h.expect[k])
+		}
+	}
+	l, _ := s.m.table.List(0)
+	var listed []c16Rec
+	for _, r := range l {
+		ones, _ := r.Network.Mask.Size()
+		a, _ := netip.AddrFromSlice(r.Network.IP)
+		listed = append(listed, c16Rec{netip.PrefixFrom(a, ones), r.MaxLen, r.AS})
+	}
+	cands := listed
+	if len(all) > 0 {
+		cands = append(append([]c16Rec{}, listed...), all...)
+	}
+	if len(cands) == 0 {
+		cands = c16Pool
+	}
+	for i := 0; i < n; i++ {
+		base := cands[s.r.intn(len(cands))]
+		pfx := base.p
+		if s.r.chance(50) { // a more specific route
+			l := pfx.Bits() + s.r.pick(1, 4, 8)
+			if l > pfx.Addr().BitLen() {
+				l = pfx.Addr().BitLen()
+			}
+			pfx = netip.PrefixFrom(pfx.Addr(), l)
+		}
+		origin := base.as
+		if s.r.chance(25) {
+			origin = c16ASes[s.r.intn(len(c16ASes))]
+		}
+		fam, rf := 4, bgp.RF_IPv4_UC
+		if pfx.Addr().Is6() {
+			fam, rf = 6, bgp.RF_IPv6_UC
+		}
+		nlri, _ := bgp.NewIPAddrPrefix(pfx)
+		attrs := []bgp.PathAttributeInterface{bgp.NewPathAttributeOrigin(0),
+			bgp.NewPathAttributeAsPath([]bgp.AsPathParamInterface{bgp.NewAs4PathParam(bgp.BGP_ASPATH_ATTR_TYPE_SEQ, []uint32{64999, origin})})}
+		path := table.NewPath(rf, &table.PeerInfo{LocalAS: 65500, AS: 64999}, bgp.PathNLRI{NLRI: nlri}, false, attrs, time.Unix(1, 0), false)
+		got := string(s.m.table.Validate(path).Status)
+		s.o.ask(got, "mval %d %d %s 65500 1 2 2 64999 %d", fam, pfx.Bits(), c16Bits(pfx.Addr().AsSlice(), pfx.Bits()), origin)
+		spec := func(recs []c16Rec) string {
+			covering, matching := 0, 0
+			for _, r := range recs {
+				if r.p.Addr().Is4() != pfx.Addr().Is4() || r.p.Bits() > pfx.Bits() || !r.p.Contains(pfx.Addr()) {
+					continue
+				}
+				covering++
+				if r.as != 0 && r.as == origin && pfx.Bits() <= int(r.maxLen) {
+					matching++
+				}
+			}
+			switch {
+			case matching > 0:
+				return "valid"
+			case covering > 0:
+				return "invalid"
+			}
+			return "not-found"
+		}
+		if want := spec(listed); got != want {
+			s.o.fail("rfc6811-status-server", map[string]any{"trace": append([]string{}, s.trace...), "route": pfx.String(), "origin": origin, "got": got, "rfc6811": want})
+		}
+		if known {
+			s.o.stat("verdict_checked_against_announced_set", 1)
+			if want := spec(all); got != want {
+				s.o.fail("verdict-differs-from-announced-set", map[string]any{"trace": append([]string{}, s.trace...), "route": pfx.String(), "origin": origin, "got": got, "announced_set_says": want})
+			}
+		}
 	}
 }
 
@@ -1038,6 +1288,36 @@ func (s *c16Srv) corpus() {
 	s.pduEndOfData(a, a.session, a.serial, c16Copy(a.db), "reset-reply-not-replacing")
 	s.deliver(a)
 	s.endCase()
+
+	// 3e. record identity is the whole tuple: near-duplicates (same address other length, other
+	// max length, other AS) announced and withdrawn around a record inside one response — a
+	// reset reply and a serial reply — must leave that record alone
+	recA16 := c16Rec{netip.MustParsePrefix("10.0.0.0/16"), 24, 100}
+	for _, dup := range []c16Rec{recA16, {recA.p, 32, 100}, {recA.p, 24, 65000}} {
+		s.newManager()
+		s.addServer(a)
+		s.connected(a)
+		a.queries = nil
+		seq := []c16Delta{{true, recA}, {true, dup}, {false, dup}}
+		s.pduCacheResponse(a, a.session)
+		for _, d := range seq {
+			s.pduPrefix(a, d.announce, d.rec)
+		}
+		s.pduEndOfData(a, a.session, a.serial, c16ApplySet(nil, seq), "reset-reply-not-the-announced-set")
+		// serial reply: withdraw-unknown near-duplicate first, then announce / withdraw in the other order
+		seq = []c16Delta{{false, dup}, {true, dup}, {true, recB}, {false, dup}}
+		before := a.expect
+		s.pduCacheResponse(a, a.session)
+		for _, d := range seq {
+			s.pduPrefix(a, d.announce, d.rec)
+		}
+		a.serial++
+		s.pduEndOfData(a, a.session, a.serial, c16ApplySet(before, seq), "incremental-update-wrong")
+		// after End of Data: the near-duplicate comes and goes while the record stays
+		s.unsolicitedRec(a, true, dup)
+		s.unsolicitedRec(a, false, dup)
+		s.endCase()
+	}
 
 	// 4. announce-then-withdraw inside one response
 	s.newManager()
@@ -1177,8 +1457,12 @@ func TestVerifC16Server(t *testing.T) {
 					s.pduNotify(h, h.session, h.serial-uint32(r.pick(1, 2, 1000))) // an older serial
 					o.stat("step_notify_older", 1)
 				default:
-					s.pduOther(h, r.intn(5))
-					o.stat("step_pdu_other", 1)
+					if r.chance(50) {
+						s.unsolicited(h)
+					} else {
+						s.pduOther(h, r.intn(5))
+						o.stat("step_pdu_other", 1)
+					}
 				}
 			case k < 76:
 				if h.phase == c16Open {
